@@ -179,6 +179,39 @@ func (g *lawGen) resolve(s sem, t *TX) resolution {
 	return r
 }
 
+// pinned: a generic named type whose instance comes from ANOTHER package (the type's own package)
+// gets the instances of its type arguments from the package that asks for it; the basic type arguments
+// are therefore pinned to the semantics they have in s.ctx before the reference descends into the
+// declaring package. Returns t itself when nothing has to be pinned.
+func (g *lawGen) pinned(s sem, t *TX) *TX {
+	if s.tc < 0 || t.K != KNamed || len(t.El) == 0 {
+		return t
+	}
+	r := resolveNamed(TC(s.tc), s.ctx, t.Decl, s.rec)
+	if r.ctx == nil || r.ctx == s.ctx {
+		return t
+	}
+	changed := false
+	n := *t
+	n.El = make([]*TX, len(t.El))
+	for i, a := range t.El {
+		n.El[i] = a
+		if a.K == KBasic && a.Sem == "" {
+			c := *a
+			c.Sem = "std"
+			if o := s.ctx.findOverride(TC(s.tc), "basic:"+a.Basic); o != nil {
+				c.Sem = o.Variant
+			}
+			n.El[i] = &c
+			changed = true
+		}
+	}
+	if !changed {
+		return t
+	}
+	return &n
+}
+
 // eqv: func(a, b T) bool. Structural (nil == empty, pointers by pointee) when s.tc < 0, else the
 // equality the documented resolution order gives for Eq / Hashable in package s.ctx.
 func (g *lawGen) eqv(s sem, t *TX) string {
@@ -226,6 +259,10 @@ func (g *lawGen) eqv(s sem, t *TX) string {
 		}
 		body = "return " + strings.Join(cs, " && ")
 	case KNamed:
+		if pt := g.pinned(s, t); pt != t {
+			body = fmt.Sprintf("return %s(a, b)", g.eqv(s, pt))
+			break
+		}
 		d := t.Decl
 		fieldwise := func(fs sem) string {
 			if !d.IsStruct {
@@ -316,6 +353,8 @@ func (g *lawGen) less(s sem, t *TX) string {
 		body = "return a < b"
 		if t.Sem == "fold" {
 			body = "return rFoldLess(a, b)"
+		} else if t.Sem == "rev" {
+			body = "return a > b"
 		} else if t.Sem == "" {
 			if o := s.ctx.findOverride(Ord, "basic:"+t.Basic); o != nil {
 				switch o.Variant {
@@ -343,6 +382,10 @@ func (g *lawGen) less(s sem, t *TX) string {
 		}
 		body = lex(ls, as, bs)
 	case KNamed:
+		if pt := g.pinned(s, t); pt != t {
+			body = fmt.Sprintf("return %s(a, b)", g.less(s, pt))
+			break
+		}
 		d := t.Decl
 		r := g.resolve(s, t)
 		switch r.mode {
@@ -440,6 +483,11 @@ func (g *lawGen) combine(s sem, t *TX) (string, string) {
 		}
 		body, empty = "return "+b, "return "+e
 	case KNamed:
+		if pt := g.pinned(s, t); pt != t {
+			c, z := g.combine(s, pt)
+			body, empty = fmt.Sprintf("return %s(a, b)", c), fmt.Sprintf("return %s()", z)
+			break
+		}
 		d := t.Decl
 		r := g.resolve(s, t)
 		switch r.mode {
@@ -769,7 +817,16 @@ func genLawTest(p *Pkg, targets []lawTarget) (src string, err error) {
 			c, z := g.refTopMonoid(s, t)
 			fmt.Fprintf(&laws, "\trunMonoid(%q, inst, pool, varied, %s, %s, %s, %s)\n", typ, classLit, c, z, g.eqv(sem{tc: -1}, t))
 		case Clone:
-			fmt.Fprintf(&laws, "\trunClone(%q, inst, pool, %s, %v, %s)\n", typ, classLit, d.IsStruct, g.eqv(sem{tc: -1}, t))
+			// fields whose storage sits in a nested plain struct get their own violation key
+			tagLit := "nil"
+			if d.IsStruct {
+				tl := []string{}
+				for _, f := range fieldsOf(t, p) {
+					tl = append(tl, fmt.Sprintf("%q", cloneTag(f.T, x)))
+				}
+				tagLit = "[]string{" + strings.Join(tl, ", ") + "}"
+			}
+			fmt.Fprintf(&laws, "\trunClone(%q, inst, pool, %s, %s, %v, %s)\n", typ, classLit, tagLit, d.IsStruct, g.eqv(sem{tc: -1}, t))
 		case Show:
 			if containsPtr(t, map[*Decl]bool{}) {
 				fmt.Fprintf(&laws, "\trunShow(%q, inst, pool, nil)\n", typ)
